@@ -20,7 +20,8 @@ T_co = TypeVar("T_co", covariant=True)
 # --------------------------------------------------------------------------- protocols
 @runtime_checkable
 class P1(Protocol):
-    def m(self) -> int: ...
+    def m(self) -> int:  # (a default implementation: nominal subclasses may inherit it)
+        return 0
 
 
 class P2(Protocol):
